@@ -128,7 +128,8 @@ Section Inst.
   | OGac (res : option ac) (v : N) (g ng : list sc)
   | OCleanup (keep : list N) (g ng : list sc)
   | OSelect (mhp : N) (limit : nat) (sel g ng : list sc)
-  | OUpgrade (cs g ng : list sc).
+  | OUpgrade (cs g ng : list sc)
+  | OBroadcast (g ng : list sc).
 
   Notation pool := (pool csig).
   Definition mkpool (g ng : list sc) : pool := {| gossiped := g; nongossiped := ng |}.
@@ -181,6 +182,16 @@ Section Inst.
         let '(s, p') := select p mhp limit in
         (code (scs_eqb s sel && pool_eqb p' g ng)
               (scs_incl sel (all p) && Nat.leb (length sel) limit && scs_same (all q) (all p)), q)
+    | OBroadcast g ng =>
+        let q := mkpool g ng in
+        let tip := fold_left (fun a kh => N.max a (fst kh)) (e_chain e) 0 in
+        let rh := match chain_at (e_chain es) (e_mhp es) with Some fin => h_ac_height fin | None => 0 end in
+        (* declaratively: what may be dropped is decided by the height alone (broadcast_cleanup_spec) *)
+        let keep (c : sc) := (rh <? sc_height c) &&
+                             (((sub32 (e_mhp es) 100 <=? sc_height c) && (sc_height c <? e_mhp es)) ||
+                              existsb (fun kp => fst kp =? u32 (sc_height c + 1)) (e_params e)) in
+        (code (pool_eqb (broadcast_certificate e tip false p) g ng)
+              (scs_same (all q) (filter keep (all p))), q)
     | OUpgrade cs g ng =>
         let q := mkpool g ng in
         (code (pool_eqb (upgrade p cs) g ng) (scs_same (all q) (all p)), q)
